@@ -81,6 +81,9 @@ class PermRecorder:
 
 
 def _chains_from_perms(perms, model_calls, xs, names, n, d, n_inner):
+    """The recorded permutation may hold feature NAMES or INDICES into the name list (and integer names can make that ambiguous):
+    both readings are tried, each is validated against the identity of the value objects in the recorded model inputs, and the chain is
+    used only if exactly one distinct reading survives."""
     if len(perms) != n or len(model_calls) != n * d * n_inner:
         return None
     out = []
@@ -89,30 +92,33 @@ def _chains_from_perms(perms, model_calls, xs, names, n, d, n_inner):
         p = perms[i]
         if len(p) != d:
             return None
-        if all(isinstance(v, (int, np.integer)) and not isinstance(v, bool) for v in p) and sorted(int(v) for v in p) == list(range(d)) \
-                and not all(refx.norm_key(v) in names for v in p):
-            order = [names[int(v)] for v in p]
-        else:
-            order = [refx.norm_key(v) for v in p]
-            if sorted(map(repr, order)) != sorted(map(repr, names)):
-                if sorted(int(v) for v in p if isinstance(v, (int, np.integer))) == list(range(d)):
-                    order = [names[int(v)] for v in p]
-                else:
-                    return None
+        candidates = []
+        as_names = [refx.norm_key(v) for v in p]
+        if sorted(map(repr, as_names)) == sorted(map(repr, names)):
+            candidates.append(as_names)
+        if all(isinstance(v, (int, np.integer)) and not isinstance(v, bool) for v in p) and sorted(int(v) for v in p) == list(range(d)):
+            as_idx = [names[int(v)] for v in p]
+            if as_idx not in candidates:
+                candidates.append(as_idx)
         own = {f: id(xs[i][f]) for f in names}
-        chain = []
-        for k in range(d):
-            coalition = set(order[:k + 1])
-            preds = []
-            for _s in range(n_inner):
-                inp, ids, outp = model_calls[pos]
-                pos += 1
-                preds.append(outp)
-                S = {f for f in names if ids.get(f) == own[f]}
-                if not coalition <= S:
-                    return None
-            chain.append((order[k], preds))
-        out.append(chain)
+        calls_i = model_calls[pos:pos + d * n_inner]
+        pos += d * n_inner
+        surviving = []
+        for order in candidates:
+            ok = True
+            for k in range(d):
+                coalition = set(order[:k + 1])
+                for s_ in range(n_inner):
+                    _inp, ids, _outp = calls_i[k * n_inner + s_]
+                    S = {f for f in names if ids.get(f) == own[f]}
+                    if not coalition <= S:
+                        ok = False
+            if ok:
+                surviving.append(order)
+        if len(surviving) != 1:
+            return None
+        order = surviving[0]
+        out.append([(order[k], [calls_i[k * n_inner + s_][2] for s_ in range(n_inner)]) for k in range(d)])
     return out
 
 
